@@ -59,6 +59,12 @@ def conventional_plus(r, idx):
     tg.field("origin", 4, lkr.fqn).map_field("weights", 5, "string", "int32")
     svc.rpc("TagThing", tg.fqn, lkr.fqn, http=("post", "/v1/{name=things/*}:tag"), body="*", sigs=["name,labels,tags", "name,origin,weights"])
     feats.append("flattened-map-and-repeated")
+    # a paged method whose page field is a map (the aggregated-list shape): the emitted REST pager test reads the pager after iteration
+    sl = main.message("ThingsScopedList"); sl.field("things", 1, lkr.fqn, repeated=True).field("note", 2, "string")
+    ag = main.message("AggregatedListThingsRequest"); ag.field("parent", 1, "string").field("page_size", 2, "int32").field("page_token", 3, "string")
+    agr = main.message("AggregatedListThingsResponse"); agr.map_field("items", 1, "string", sl.fqn).field("next_page_token", 2, "string")
+    svc.rpc("AggregatedListThings", ag.fqn, agr.fqn, http=("get", "/v1/{parent=projects/*}/aggregated/things"), sigs=["parent"])
+    feats.append("map-valued-paged-method")
     # two path variables nested under the SAME request sub-message (plus a third level)
     pos = main.message("ThingPosition"); pos.field("shelf", 1, "string").field("thing_id", 2, "string").field("slot", 3, "int32")
     mv = main.message("MoveThingAroundRequest"); mv.field("position", 1, pos.fqn).field("note", 2, "string")
